@@ -48,6 +48,10 @@ PLAN = {
         "quick": [S("hook-default")],
         "thorough": [S("hook-default")],
     },
+    "C15": {
+        "quick": [S("hook-strict")],
+        "thorough": [S("hook-strict"), S("s-strict-nosimd", tag="nosimd"), S("s-strict-dec-half", tag="half"), S("s-strict-dec-quarter", tag="quarter"), S("s-strict-dec-min", tag="min")],
+    },
     "C16": {
         "quick": [S("serde-plain"), S("serde-strict", tag="strict"), S("serde-buffered", tag="buffered"), S("serde-buffered-strict", tag="buffered-strict")],
         "thorough": [S("serde-plain"), S("serde-strict", tag="strict"), S("serde-buffered", tag="buffered"), S("serde-buffered-strict", tag="buffered-strict"), S("serde-unsafe", tag="unsafe")],
@@ -148,6 +152,12 @@ LEVEL_TEXT = {
         "Every reader script with at most d deviations from the default answer (fill the buffer; then 0), over an 11-answer alphabet and 8 content lengths around the 1 MiB buffer, is run to completion through hash_stream_for / hash_stream; the oracle is the property itself (result of hash_buf on exactly the delivered bytes, or the first hard error as IOError).",
         "DESIGN.md section 2, C12",
         "Oracle uses hash_buf of the crate itself (judged by C01). Delivered bytes are a prefix of a fixed stream, so the expectation is cached per length.",
+        []),
+    "C15": _lt(
+        "exhaustive enumeration in a strict-parser build: all 2^16 (checksum byte, length code) header combinations in text and binary, the deviation-bounded string enumeration of C05 under the strict rules, the complete one-step relation of the 48-bucket checksum (inductive invariant), and every generated hash of the prefix / short-input / injected-length enumerations",
+        "The strict acceptance rule is decided on the complete 2^16 header domain per variant (text through every entry point, binary through array and slice), with the error kind required to be one that applies. That generated hashes are always strict-valid is decided by an inductive invariant checked on the complete one-step relation of the 48-bucket checksum (all 256 states x 2^16 byte pairs through a real update from an injected state; the initial state is 0), by C09's complete length domain, and by strict round trips of every Ok hash over the generator enumerations.",
+        "DESIGN.md section 2, C15",
+        "Runs in builds with feature strict-parser (hook build for the step relation). Both-invalid inputs may report either error.",
         []),
     "C16": _lt(
         "exhaustive enumeration of scripted Deserializer/Visitor event sequences (mock Deserializer answering every request with every event kind x payload) plus exhaustive value enumeration through three real serde formats, in four feature builds",
